@@ -304,6 +304,8 @@ pub struct BackendPlan {
     pub refused: AtomicU64,
     pub executed: Mutex<Vec<(u64, Vec<u8>)>>,
     pub stats: Arc<PipeStats>,
+    /// bytes appended to every value reply
+    pub reply_pad: usize,
 }
 
 pub struct ByteConnFactory {
@@ -334,6 +336,7 @@ async fn echo_backend(mut stream: DuplexStream, plan: Arc<BackendPlan>, conn_no:
                                 "GET" | "SET" | "ECHO" => {
                                     let mut r = b"r:".to_vec();
                                     r.extend_from_slice(&key);
+                                    r.extend(std::iter::repeat(b'#').take(plan.reply_pad));
                                     R::Bulk(Some(r))
                                 }
                                 "PING" => R::Simple(b"PONG".to_vec()),
@@ -459,24 +462,38 @@ impl Check for ConnCheck {
             "C08" => {
                 let n = *rng.pick(&[1u64, 2, 3, 5, 8, 20, 60, 200]);
                 let level = index % 3;
+                let value_size = *rng.pick(&[0u64, 3, 30, 700, 3500]);
+                let backend_conn_num = rng.range(1, 3);
+                // fault positions are drawn inside the byte streams this pipeline will really
+                // produce (a reset at byte 5000 of a 60-byte exchange never fires), with a tail
+                // of positions beyond the end
+                let est_req = (n * (32 + value_size / 2) / backend_conn_num).max(8);
+                // large replies + a small client-side buffer = back-pressure on the session's writer
+                let reply_pad = *rng.pick(&[0u64, 0, 0, 100, 4000, 20000]);
+                let est_rep = (n * (12 + reply_pad) / backend_conn_num).max(4);
                 let mut conns = vec![];
                 if level > 0 {
                     for _ in 0..rng.range(1, 6) {
                         let kind = rng.below(6);
+                        let inside = rng.chance(3, 4);
+                        let pos_req = if inside { rng.below(est_req + 1) } else { rng.below(6000) };
+                        let pos_rep = if inside { rng.below(est_rep + 1) } else { rng.below(3000) };
                         conns.push(match kind {
                             0 => json!(null), // refused
-                            1 => json!({"reset_ab": rng.below(6000)}),
-                            2 => json!({"reset_ba": rng.below(3000)}),
-                            3 => json!({"stall_ab": [rng.below(3000), *rng.pick(&[50u64, 2900, 3100, 9000])]}),
-                            4 => json!({"stall_ba": [rng.below(2000), *rng.pick(&[50u64, 2900, 3100, 9000])]}),
+                            1 => json!({"reset_ab": pos_req}),
+                            2 => json!({"reset_ba": pos_rep}),
+                            // 3_600_000 ms = the peer never answers again ("forever" for the oracle's bound)
+                            3 => json!({"stall_ab": [pos_req, *rng.pick(&[50u64, 2900, 3100, 9000, 3_600_000])]}),
+                            4 => json!({"stall_ba": [pos_rep, *rng.pick(&[50u64, 2900, 3100, 9000, 3_600_000])]}),
                             _ => json!({}),
                         });
                     }
                 }
                 json!({
                     "engine": "conn", "mode": "pipeline", "seed": seed,
-                    "cfg": {"n": n, "batch": rng.below(3), "backend_conn_num": rng.range(1, 3), "value_size": *rng.pick(&[0u64, 3, 30, 700, 3500]),
-                            "client_frag": *rng.pick(&[1u64, 2, 7, 64, 4096]), "backend_frag": *rng.pick(&[1u64, 3, 17, 512, 8192]), "delay_ms": *rng.pick(&[0u64, 0, 1, 5]), "buf": *rng.pick(&[7u64, 64, 1024, 65536])},
+                    "cfg": {"n": n, "batch": rng.below(3), "backend_conn_num": backend_conn_num, "value_size": value_size,
+                            "client_frag": (*rng.pick(&[1u64, 2, 7, 64, 4096])).max(n * reply_pad / 100_000), "backend_frag": (*rng.pick(&[1u64, 3, 17, 512, 8192])).max(n * reply_pad / 100_000), "delay_ms": *rng.pick(&[0u64, 0, 1, 5]), "buf": *rng.pick(&[7u64, 64, 1024, 65536]),
+                            "reply_pad": reply_pad, "client_buf": *rng.pick(&[7u64, 64, 1024, 65536])},
                     "ops": (0..n).collect::<Vec<u64>>(),
                     "conns": conns,
                 })
@@ -858,12 +875,13 @@ async fn run_pipeline(plan: &Value, want_sample: bool) -> RunRecord {
     let default = PipeFaults { max_frag: cfg["backend_frag"].as_u64().unwrap_or(512) as usize, max_delay_ms: cfg["delay_ms"].as_u64().unwrap_or(0), buf: cfg["buf"].as_u64().unwrap_or(1024) as usize, ..Default::default() };
     let stats = Arc::new(PipeStats { ab: AtomicU64::new(0), ba: AtomicU64::new(0), resets: AtomicU64::new(0), stalls: AtomicU64::new(0), frags: AtomicU64::new(0) });
     let conns: Vec<Option<PipeFaults>> = plan["conns"].as_array().map(|a| a.iter().map(|v| faults_of(v, cfg)).collect()).unwrap_or_default();
-    let bplan = Arc::new(BackendPlan { seed, conns: Mutex::new(conns), default, attempts: AtomicU64::new(0), refused: AtomicU64::new(0), executed: Mutex::new(vec![]), stats: stats.clone() });
+    let bplan = Arc::new(BackendPlan { seed, conns: Mutex::new(conns), default, attempts: AtomicU64::new(0), refused: AtomicU64::new(0), executed: Mutex::new(vec![]), stats: stats.clone(), reply_pad: cfg["reply_pad"].as_u64().unwrap_or(0) as usize });
     let pp = ProxyParams { backend_conn_num: cfg["backend_conn_num"].as_u64().unwrap_or(1) as usize, batch: cfg["batch"].as_u64().unwrap_or(0) as u8, ..Default::default() };
     let session = spawn_byte_proxy(&net, &pp, bplan.clone());
     let cstats = Arc::new(PipeStats { ab: AtomicU64::new(0), ba: AtomicU64::new(0), resets: AtomicU64::new(0), stalls: AtomicU64::new(0), frags: AtomicU64::new(0) });
-    let cfaults = PipeFaults { max_frag: cfg["client_frag"].as_u64().unwrap_or(64) as usize, max_delay_ms: cfg["delay_ms"].as_u64().unwrap_or(0), buf: 65536, ..Default::default() };
+    let cfaults = PipeFaults { max_frag: cfg["client_frag"].as_u64().unwrap_or(64) as usize, max_delay_ms: cfg["delay_ms"].as_u64().unwrap_or(0), buf: cfg["client_buf"].as_u64().unwrap_or(65536) as usize, ..Default::default() };
     let (mut client_end, proxy_end) = chop_pipe(hash3(seed, 3, 3), &cfaults, cstats);
+    let reply_pad = cfg["reply_pad"].as_u64().unwrap_or(0) as usize;
     let sess_task = tokio::spawn(handle_session(session, SimStream::from_io(proxy_end), None));
 
     // metadata first (same connection), then the pipeline
@@ -882,10 +900,15 @@ async fn run_pipeline(plan: &Value, want_sample: bool) -> RunRecord {
         keys.push(key);
     }
     let n_expected = keys.len() + 1;
-    if client_end.write_all(&out).await.is_err() {
-        rec.harness_error = Some("client write failed".into());
-        return rec;
-    }
+    // the client writes its pipeline and reads replies concurrently (a client that only starts to
+    // read after its last write can deadlock against any server once buffers are small)
+    let (mut client_rd, mut client_wr) = tokio::io::split(client_end);
+    let out_len = out.len();
+    let writer_task = tokio::spawn(async move {
+        let _ = client_wr.write_all(&out).await;
+        // keep the write half open until the run ends
+        futures::future::pending::<()>().await;
+    });
     // read replies until we have them all, or the bound expires once faults stopped
     let mut inbuf: Vec<u8> = vec![];
     let mut replies: Vec<R> = vec![];
@@ -894,12 +917,13 @@ async fn run_pipeline(plan: &Value, want_sample: bool) -> RunRecord {
     // fragmentation/delay needs to move the bytes at all
     let slow_ms = {
         let d = cfg["delay_ms"].as_u64().unwrap_or(0) + 1;
-        let bf = cfg["backend_frag"].as_u64().unwrap_or(512).max(1);
-        let cf = cfg["client_frag"].as_u64().unwrap_or(64).max(1);
-        let bytes = out.len() as u64 + 32 * n_expected as u64;
+        // a hop moves at most min(fragment, pipe buffer) bytes per step
+        let bf = cfg["backend_frag"].as_u64().unwrap_or(512).min(cfg["buf"].as_u64().unwrap_or(1024)).max(1);
+        let cf = cfg["client_frag"].as_u64().unwrap_or(64).min(cfg["client_buf"].as_u64().unwrap_or(65536)).max(1);
+        let bytes = out_len as u64 + (32 + reply_pad as u64) * n_expected as u64;
         (bytes / bf + bytes / cf + 2) * d * 3
     };
-    let stall_ms: u64 = plan["conns"].as_array().map(|a| a.iter().map(|c| c.get("stall_ab").or(c.get("stall_ba")).and_then(|x| x.as_array()).and_then(|x| x.get(1)).and_then(|x| x.as_u64()).unwrap_or(0)).sum()).unwrap_or(0);
+    let stall_ms: u64 = plan["conns"].as_array().map(|a| a.iter().map(|c| c.get("stall_ab").or(c.get("stall_ba")).and_then(|x| x.as_array()).and_then(|x| x.get(1)).and_then(|x| x.as_u64()).filter(|ms| *ms < 600_000).unwrap_or(0)).sum()).unwrap_or(0);
     let bound = Duration::from_millis(60_000 + slow_ms + stall_ms);
     let deadline = tokio::time::Instant::now() + bound;
     let mut closed = false;
@@ -921,7 +945,7 @@ async fn run_pipeline(plan: &Value, want_sample: bool) -> RunRecord {
         if replies.len() >= n_expected || !rec.violations.is_empty() {
             break;
         }
-        match tokio::time::timeout_at(deadline, client_end.read(&mut tmp)).await {
+        match tokio::time::timeout_at(deadline, client_rd.read(&mut tmp)).await {
             Err(_) => break,
             Ok(Ok(0)) | Ok(Err(_)) => {
                 closed = true;
@@ -931,7 +955,7 @@ async fn run_pipeline(plan: &Value, want_sample: bool) -> RunRecord {
         }
     }
     // a little longer: there must never be MORE replies than requests
-    if let Ok(Ok(n)) = tokio::time::timeout(Duration::from_millis(5000 + slow_ms), client_end.read(&mut tmp)).await {
+    if let Ok(Ok(n)) = tokio::time::timeout(Duration::from_millis(5000 + slow_ms), client_rd.read(&mut tmp)).await {
         if n > 0 {
             inbuf.extend_from_slice(&tmp[..n]);
             if let Ok(Some(_)) = ref_parse(&inbuf, 0) {
@@ -940,6 +964,7 @@ async fn run_pipeline(plan: &Value, want_sample: bool) -> RunRecord {
         }
     }
     sess_task.abort();
+    writer_task.abort();
     // ---- oracle
     let mut classes = String::new();
     if replies.len() < n_expected {
@@ -960,6 +985,7 @@ async fn run_pipeline(plan: &Value, want_sample: bool) -> RunRecord {
             R::Bulk(Some(b)) => {
                 let mut want = b"r:".to_vec();
                 want.extend_from_slice(key);
+                want.extend(std::iter::repeat(b'#').take(reply_pad));
                 if b == &want {
                     classes.push('v');
                 } else {
@@ -1061,7 +1087,7 @@ async fn run_hostile(plan: &Value, want_sample: bool) -> RunRecord {
     let net = Net::new(seed, 2);
     let stats = Arc::new(PipeStats { ab: AtomicU64::new(0), ba: AtomicU64::new(0), resets: AtomicU64::new(0), stalls: AtomicU64::new(0), frags: AtomicU64::new(0) });
     let default = PipeFaults { max_frag: 4096, buf: 65536, ..Default::default() };
-    let bplan = Arc::new(BackendPlan { seed, conns: Mutex::new(vec![]), default, attempts: AtomicU64::new(0), refused: AtomicU64::new(0), executed: Mutex::new(vec![]), stats: stats.clone() });
+    let bplan = Arc::new(BackendPlan { seed, conns: Mutex::new(vec![]), default, attempts: AtomicU64::new(0), refused: AtomicU64::new(0), executed: Mutex::new(vec![]), stats: stats.clone(), reply_pad: 0 });
     let pp = ProxyParams { active_redirection: plan["active_redirection"].as_bool().unwrap_or(false), ..Default::default() };
     let session = spawn_byte_proxy(&net, &pp, bplan);
     let frag = plan["frag"].as_u64().unwrap_or(64) as usize;
